@@ -1112,7 +1112,9 @@ _object_key:
 		rt.ConvTBool(true, (*interface{})(val))
 	case KFalse:
 		rt.ConvTBool(false, (*interface{})(val))
-	case KNull: /* skip */
+	case KNull:
+		/* the slot may hold the value of an earlier duplicate key */
+		*(*interface{})(val) = nil
 	case KUint:
 		ctx.efacePool.ConvF64(float64(node.U64()), val)
 	case KSint:
